@@ -69,13 +69,21 @@ func blockerFrameName(t string) string {
 
 // Case is one program of the space (JSON: the replay contract).
 type Case struct {
-	Family string   `json:"family"`        // tail | blocked | transparency-only
+	Family string   `json:"family"`        // tail | blocked | transparency-only | multiform
 	Def    string   `json:"def,omitempty"` // "" (top-level defun) | labels (the loop is a set of labels-bound closures)
 	Shape  []string `json:"shape"`         // outermost first
 	Topo   int      `json:"topo"`          // cycle length 1..3
 	Args   string   `json:"args"`          // acc | rest | key
 	Err    string   `json:"err"`           // none | base | first
 	N      int      `json:"n"`
+	// multiform family only: the function body has several forms and a
+	// NON-last one (the "side form", whose shape is Shape) ends in a
+	// recursive call on one chosen turn of the loop.
+	Container string `json:"container,omitempty"` // body | let | progn | dotimes | lambda-funcall | lambda-apply
+	Layout    string `json:"layout,omitempty"`    // SM | SLM | LSM  (S side form, L log form, M main loop form)
+	Turn      string `json:"turn,omitempty"`      // first | second | last : the turn on which the side call is made
+	Target    string `json:"target,omitempty"`    // self | next : the function the side call calls
+	Main      string `json:"main,omitempty"`      // direct | funcall | apply : how the main tail call is made
 	// Ns is set for the constant-stack relation: the iteration counts whose
 	// maximum stack heights were compared.
 	Ns     []int  `json:"ns,omitempty"`
@@ -86,10 +94,14 @@ type Case struct {
 // tokens is the shape as used for violation classes and minimal-first
 // reporting: a labels-defined loop is marked by a leading pseudo-token.
 func (c Case) tokens() []string {
+	var t []string
 	if c.Def == "labels" {
-		return append([]string{"LABELS-LOOP"}, c.Shape...)
+		t = append(t, "LABELS-LOOP")
 	}
-	return c.Shape
+	if c.Family == "multiform" {
+		t = append(t, "MF-"+c.Container)
+	}
+	return append(t, c.Shape...)
 }
 
 func (c Case) shapeKey() string {
@@ -139,9 +151,13 @@ func accExpr(style string, v vars) string {
 
 // callForm is the recursive call made by function k of a topo-cycle.
 func callForm(c Case, k int, v vars) form {
-	callee := fmt.Sprintf("f%d", (k+1)%c.Topo)
 	mix := fmt.Sprintf("(- (+ %s %d) %s)", v.n, k+1, accExpr(c.Args, v))
-	dec := "(- " + v.n + " 1)"
+	return callTo(c, (k+1)%c.Topo, v, "(- "+v.n+" 1)", mix)
+}
+
+// callTo is a call of function `target` with the given n and accumulator operands.
+func callTo(c Case, target int, v vars, dec, mix string) form {
+	callee := fmt.Sprintf("f%d", target)
 	var args []string
 	switch c.Args {
 	case "acc":
@@ -302,6 +318,9 @@ func recursive(c Case, k int) (rec string, macroBody string) {
 
 // Source renders the whole program.
 func Source(c Case) string {
+	if c.Family == "multiform" {
+		return sourceMulti(c)
+	}
 	var b strings.Builder
 	b.WriteString("(set 'g-n 0) (set 'g-a 0)\n")
 	for _, t := range c.Shape {
@@ -427,4 +446,116 @@ func isSubsequence(a, b []string) bool {
 		}
 	}
 	return i == len(a)
+}
+
+// ---------------------------------------------------------------------------
+// multiform family: function bodies with several forms.
+//
+//	(defun fK PARAMS  <container>[ S  [L]  M ])
+//
+//	S = (if (= n TURN) W1[..Wd[ (fT -100 SIDEACC) ]] ())   the side form: on one turn of the
+//	      loop a NON-last form ends, through the shape W, in a recursive call whose
+//	      activation (n < 0) goes straight to the base case and prints there
+//	L = (set 'g-log (cons n g-log))                        every activation logs itself
+//	M = (if (<= n 0) BASE MAINCALL)                        the ordinary tail loop
+//
+// The side call is not a tail call of the function (S is not the last form),
+// so it must be executed and return in every configuration; the program's
+// value is (list result g-log).
+
+var containers = []string{"body", "let", "progn", "dotimes", "lambda-funcall", "lambda-apply"}
+var layouts = []string{"SM", "SLM", "LSM"}
+var turns = []string{"first", "second", "last"}
+var mainCalls = []string{"direct", "funcall", "apply"}
+
+func sourceMulti(c Case) string {
+	var b strings.Builder
+	b.WriteString("(set 'g-n 0) (set 'g-a 0) (set 'g-log ())\n")
+	params := map[string]string{"acc": "(n acc)", "rest": "(n &rest xs)", "key": "(&key n acc)"}[c.Args]
+	loc := vars{n: "n", a: "acc"}
+	if c.Args == "rest" {
+		loc.a = "xs"
+	}
+	acc := accExpr(c.Args, loc)
+	base := "(progn (c02-probe) (debug-print 'base " + acc + ") " + acc + ")"
+	turn := map[string]int{"first": c.N, "second": c.N - 1, "last": 1}[c.Turn]
+	if turn < 1 {
+		turn = -7 // no such turn for this N: the side call is never made
+	}
+	var defs []string
+	for k := 0; k < c.Topo; k++ {
+		target := k
+		if c.Target == "next" {
+			target = (k + 1) % c.Topo
+		}
+		f := callTo(c, target, loc, "-100", "(- -1000 "+loc.n+")")
+		for i := len(c.Shape) - 1; i >= 0; i-- {
+			f = wrap(c, c.Shape[i], 11+i, k, loc, f)
+		}
+		S := fmt.Sprintf("(if (= n %d) %s ())", turn, f.String())
+		L := "(set 'g-log (cons n g-log))"
+		m := callForm(c, k, loc)
+		switch c.Main {
+		case "funcall", "apply":
+			m = wrap(c, c.Main, 1, k, loc, m)
+		}
+		M := fmt.Sprintf("(if (<= n 0) %s %s)", base, m.String())
+		var pre []string
+		switch c.Layout {
+		case "SM":
+			pre = []string{S}
+		case "SLM":
+			pre = []string{S, L}
+		case "LSM":
+			pre = []string{L, S}
+		default:
+			panic("harness: layout " + c.Layout)
+		}
+		forms := strings.Join(append(append([]string{}, pre...), M), " ")
+		body := ""
+		switch c.Container {
+		case "body":
+			body = forms
+		case "let":
+			body = "(let ([u n]) " + forms + ")"
+		case "progn":
+			body = "(progn " + forms + ")"
+		case "dotimes":
+			body = "(dotimes (i9 1 " + M + ") " + strings.Join(pre, " ") + ")"
+		case "lambda-funcall":
+			body = "(funcall (lambda () " + forms + "))"
+		case "lambda-apply":
+			body = "(apply (lambda () " + forms + ") '())"
+		default:
+			panic("harness: container " + c.Container)
+		}
+		if c.Def == "labels" {
+			defs = append(defs, fmt.Sprintf(" [f%d %s %s]\n", k, params, body))
+		} else {
+			defs = append(defs, fmt.Sprintf("(defun f%d %s %s)\n", k, params, body))
+		}
+	}
+	top := ""
+	switch c.Args {
+	case "acc":
+		top = fmt.Sprintf("(f0 %d 0)", c.N)
+	case "rest":
+		top = fmt.Sprintf("(f0 %d 0 7)", c.N)
+	case "key":
+		top = fmt.Sprintf("(f0 :n %d :acc 0)", c.N)
+	}
+	top = "(list " + top + " g-log)"
+	if c.Def == "labels" {
+		b.WriteString("(labels (\n")
+		for _, d := range defs {
+			b.WriteString(d)
+		}
+		b.WriteString(" )\n " + top + ")\n")
+		return b.String()
+	}
+	for _, d := range defs {
+		b.WriteString(d)
+	}
+	b.WriteString(top + "\n")
+	return b.String()
 }
